@@ -322,7 +322,8 @@ def main():
                "alone; limb strides of 2^29..2^32 coefficients in a sparse mapping; objects of more than 4 GiB (thorough).",
         "C09": " Kernels up to N = 2^21; exponents p, p+N, p+2N back to back; in-place wrapper calls with unequal sizes, compaction and clearing.",
         "C10": " The same buffer passed as both operands; half-word-boundary operands; every three-term product of half-word extremes.",
-        "C12": " The built library is scanned for non-temporal stores without a fence (advisory).",
+        "C12": " The built library is scanned for non-temporal stores without a fence (advisory). Rotations and automorphisms (small and big forms) out of place "
+               "on 2, 5 and 8 limbs with a different p in each data variant, so that threads inside one shared module use different p at the same time.",
         "C13": " Overlay.tla decides which in-buffer layouts are well defined (rule checked against the loop on a buffer of cells for every layout "
                "of a box, an illegal layout that ends wrong as witness); the legal layouts - compaction, compaction and clearing, vectors sharing "
                "single limbs - are replayed for the unary operations and for add / sub over either operand; normalisation over its own input "
